@@ -48,7 +48,12 @@ func Run(conf core.Config, patterns ...string) *core.Result {
 					continue
 				}
 				if fd.Recv != nil && isDecoderName(fd.Name.Name) {
-					checkDecoder(res, pkg, fd)
+					checkDecoder(res, pkg, fd, nil)
+				} else if seed := headerParams(pkg, fd); len(seed) > 0 {
+					// a helper that receives a decoded header (a struct type
+					// with an unmarshalBinary* method) validates on behalf
+					// of the decoder that called it
+					checkDecoder(res, pkg, fd, seed)
 				}
 				checkSelfCmp(res, pkg, fd)
 			}
@@ -212,10 +217,58 @@ func (d *dec) validatingCond(b *cfg.Block) ast.Expr {
 	return nil
 }
 
-func checkDecoder(res *core.Result, pkg *packages.Package, fd *ast.FuncDecl) {
+// headerParams returns the decoded cells a function receives through
+// parameters of a header type (a struct with an unmarshalBinary* method):
+// "param.Field" for every integer field.
+func headerParams(pkg *packages.Package, fd *ast.FuncDecl) map[string]bool {
+	if strings.HasPrefix(fd.Name.Name, "unmarshalBinary") || strings.HasPrefix(fd.Name.Name, "marshalBinary") {
+		return nil
+	}
+	out := map[string]bool{}
+	for _, fl := range fd.Type.Params.List {
+		for _, n := range fl.Names {
+			o := pkg.TypesInfo.Defs[n]
+			if o == nil {
+				continue
+			}
+			t := o.Type()
+			if p, ok := t.(*types.Pointer); ok {
+				t = p.Elem()
+			}
+			nt, ok := t.(*types.Named)
+			if !ok || nt.Obj().Pkg() != pkg.Types {
+				continue
+			}
+			st, ok := nt.Underlying().(*types.Struct)
+			if !ok {
+				continue
+			}
+			isHeader := false
+			for i := 0; i < nt.NumMethods(); i++ {
+				if strings.HasPrefix(nt.Method(i).Name(), "unmarshalBinary") {
+					isHeader = true
+				}
+			}
+			if !isHeader {
+				continue
+			}
+			for i := 0; i < st.NumFields(); i++ {
+				if b, ok := st.Field(i).Type().Underlying().(*types.Basic); ok && b.Info()&types.IsInteger != 0 {
+					out[n.Name+"."+st.Field(i).Name()] = true
+				}
+			}
+		}
+	}
+	return out
+}
+
+func checkDecoder(res *core.Result, pkg *packages.Package, fd *ast.FuncDecl, seed map[string]bool) {
 	d := &dec{pkg: pkg, info: pkg.TypesInfo, fd: fd, name: core.FuncName(pkg, fd), res: res, taint: map[string]bool{}}
-	if len(fd.Recv.List[0].Names) == 1 {
+	if fd.Recv != nil && len(fd.Recv.List[0].Names) == 1 {
 		d.recv = d.info.Defs[fd.Recv.List[0].Names[0]]
+	}
+	for k := range seed {
+		d.taint[k] = true
 	}
 	d.collect()
 	res.Count("decoder_methods", 1)
